@@ -44,12 +44,7 @@ fn decode_prog(view: GraphView<'_>, scope: &NodeId, guarded: bool) -> Option<Pro
 
 fn rt_matcher(view: GraphView<'_>, scope: &NodeId) -> bool {
     match decode_prog(view, scope, false) {
-        Some(p) => match &p.cond {
-            MatchCond::Always => true,
-            MatchCond::Never => false,
-            MatchCond::NodeExists(n) => view.node(&node_id(*n)).is_some(),
-            MatchCond::NodeHasType(n, t) => view.node(&node_id(*n)).map(|r| r.ty) == Some(type_id(*t)),
-        },
+        Some(p) => real_cond(view, &p.cond),
         None => false,
     }
 }
@@ -452,6 +447,12 @@ impl World {
         let mut p = c.pop().map(|c| c.prog).unwrap_or(Prog { cond: MatchCond::Always, instrs: vec![], fp: AFootprint::default() });
         if !pre.warps.contains_key(&0) {
             p.instrs.clear();
+        }
+        // an intent may run against a later state than the one it was realised for
+        // (another head of the same worldline commits first, or a budgeted inbox defers it):
+        // like a real rule it matches only while its structural preconditions hold
+        if !matches!(p.cond, MatchCond::Never) {
+            p.cond = MatchCond::Guarded(preconds(&p.instrs));
         }
         p
     }
